@@ -36,7 +36,7 @@
 (***************************************************************************)
 EXTENDS Integers, Sequences, FiniteSets, TLC, Json
 
-CONSTANTS Part,      \* "entry" | "multi" | "boundary"
+CONSTANTS Part,      \* "entry" | "multi" | "boundary" | "all"
           KeyIds,    \* key ids of the exhaustive entry domain, e.g. 1..2
           Outsider,  \* id of a key that is never listed
           MaxLen,    \* longest key / signature list of the exhaustive domain
@@ -125,11 +125,11 @@ Out(t) == [tx |-> t, exp |-> TxOK(t), decl |-> TxDecl(t), loose |-> TxLoose(t), 
 
 (* ------------------------------------------------------------------ spec *)
 (* "entry": roots are (keys, m); one successor per signature list, so that TLC's workers share the work *)
-Init == \/ /\ Part = "entry" /\ tx \in EntryRoots /\ phase = "root"
-        \/ /\ Part = "multi" /\ tx \in MultiRows /\ phase = "row"
-        \/ /\ Part = "boundary" /\ tx \in BoundaryRows /\ phase = "row"
+Init == \/ /\ Part \in {"entry", "all"} /\ tx \in EntryRoots /\ phase = "root"
+        \/ /\ Part \in {"multi", "all"} /\ tx \in MultiRows /\ phase = "row"
+        \/ /\ Part \in {"boundary", "all"} /\ tx \in BoundaryRows /\ phase = "row"
 
-Expand == /\ Part = "entry" /\ phase = "root" /\ phase' = "done"
+Expand == /\ phase = "root" /\ phase' = "done"
           /\ tx.m \in MSet(Len(tx.keys))
           /\ \E sg \in SmallSeqs({0} \cup KeyIds \cup {Outsider}, MaxLen) :
                /\ tx' = <<E(tx.keys, tx.m, sg)>>
